@@ -17,12 +17,16 @@
      - the reconstructor reads the counters and the texts, not the leading whitespace, of tokens that are not ignored (recon_ws).
 
    Hypotheses (idem_hyp; all decidable on the first run, evaluated by the driver unit `idemhyp`):
-     1,2  rescan_ok: the lexer cuts the output into the emitted pieces and gives every token its former raw kind;
+     1,2  rescan_ok: the lexer cuts the output into the emitted pieces and gives every token its former raw kind (for the kinds,
+          FormatIdemKindsProofs.format_idempotent_kinds asks equality up to the Individual / Inline flag of comments only);
           LexerRelayoutProofs gives the cut when every gap is a valid separator (FormatRescanProofs.format_rescan), the kinds are
           stable when the Inline/Individual flag of every comment is (a comment the search decides keeps its line position);
      3    no `asm` keyword (the parser reads the layout inside asm blocks);
-     4,5  neither run ignores a token (an ignored token keeps its text, so nothing is to prove there, but the marks of the second run
-          are computed from the REWRITTEN comments: that parse_toggle is stable under the comment rewriter is not proved);
+     4    the first run ignores no token;
+     5    the second run ignores no token: a consequence of the others (second_run_ignores_nothing: the marks of the second run are
+          computed from the REWRITTEN comments, and a `//` comment that is not a toggle is not one after the rewriter —
+          format_line_comment_keeps_non_toggle; block comments are not rewritten, directives are not comments).  idem_hyp6 /
+          idem_hyp_min / format_idempotent_min / idem_hypb_min are the statements without it; the first versions are corollaries;
      6    format_multiline_strings = false or no multi-line literal (F6 is a counterexample otherwise);
      7    every token but the final Eof is decided by the search (F42: a line without a solution keeps its counters as read);
      8    the second search reads the spaces_before the first one read.  For a token that continues its line in the output this is a
@@ -35,7 +39,7 @@ From Coq Require Import Lia.
 From PasfmtVerif Require Import Model.Format Proofs.FormatProofs Proofs.FormatTotalProofs Proofs.FormatIgnoredProofs Proofs.FormatWsProofs
   Proofs.FormatCrlfProofs Proofs.SpacingProofs Proofs.WrapApplyProofs Proofs.WrapEventsProofs Proofs.WrapReadsProofs Proofs.WrapFileProofs
   Proofs.ToggleProofs Proofs.GenericsProofs Proofs.ParserGrammarWsnlProofs
-  Proofs.RewritersProofs Proofs.CommentIdemProofs Proofs.FmtDataProofs Proofs.FormatContentProofs Proofs.FormatTabsProofs Proofs.FormatRescanProofs.
+  Proofs.RewritersProofs Proofs.CommentIdemProofs Proofs.FmtDataProofs Proofs.FormatContentProofs Proofs.FormatTabsProofs Proofs.FormatRescanProofs Proofs.FormatRelayoutProofs.
 
 (* ------------------------------------------------------------------ *)
 (* 1. the decisions applied to a token *)
@@ -223,6 +227,79 @@ Proof.
 Qed.
 
 (* ------------------------------------------------------------------ *)
+(* 3b. a comment that is not a toggle is not one after the comment rewriter either (so the second run ignores nothing) *)
+Notation tcontents := parse_pasfmt_directive_comment_contents.
+
+Lemma contents_app_stop x suf t : tcontents x = Some t -> stops is_alnum suf -> tcontents (x ++ suf) = Some t.
+Proof.
+  intros H Hs. apply contents_iff in H. destruct H as (ws1 & w & ws2 & word & rest & -> & H1 & Hw & Hne & H2 & Ha & Hr & Hl).
+  apply contents_iff. exists ws1, w, ws2, word, (rest ++ suf). rewrite <- !app_assoc. split; [reflexivity|].
+  repeat (split; [assumption|]). split; [|exact Hl]. destruct rest; [exact Hs|exact Hr].
+Qed.
+
+Lemma contents_ws_cons a x : is_ascii_ws a = true -> tcontents (a :: x) = tcontents x.
+Proof. intros Ha. unfold parse_pasfmt_directive_comment_contents. cbn [count_while]. rewrite Ha. reflexivity. Qed.
+
+Lemma contents_slash x : tcontents (47 :: x) = None.
+Proof.
+  unfold parse_pasfmt_directive_comment_contents, strip_prefix_icase, starts_with_icase. cbn [count_while]. change (is_ascii_ws 47) with false. cbn [skipn].
+  destruct (Nat.leb (length pasfmt_word) (length (47 :: x))); [|reflexivity]. cbn [andb pasfmt_word length firstn lower map bytes_eqb].
+  change (to_lower 47 =? to_lower 112) with false. reflexivity.
+Qed.
+
+Lemma blank_suffix_stops suf : strip suf = [] -> stops is_alnum suf.
+Proof.
+  destruct suf as [|b r]; [exact (fun _ => I)|]. rewrite strip_unfold. cbn [stops]. destruct (b <=? 32) eqn:E.
+  - intros _. apply N.leb_le in E. unfold is_alnum, is_alpha, is_digit, is_upper, is_lower.
+    repeat match goal with |- context [?a <=? ?b] => let X := fresh in destruct (a <=? b) eqn:X; [apply N.leb_le in X|]; try lia end; reflexivity.
+  - destruct r as [|c [|d r']]; try discriminate. destruct ((b =? 227) && (c =? 128) && (d =? 128)) eqn:E3; [|discriminate].
+    intros _. apply andb_true_iff in E3. destruct E3 as [E3 _]. apply andb_true_iff in E3. destruct E3 as [E3 _]. apply N.eqb_eq in E3. subst b. reflexivity.
+Qed.
+
+Lemma parse_toggle_trim x t : parse_toggle (trim_blank_end x) = Some t -> parse_toggle x = Some t.
+Proof.
+  intros H. destruct (trim_blank_end_spec x) as (suf & E & Hs & _).
+  destruct (parse_toggle_inv _ _ H) as (pre & body & Hp & Eb & Hc). rewrite E, Eb, <- app_assoc.
+  rewrite (parse_toggle_opener pre _ Hp). apply contents_app_stop; [exact Hc|apply blank_suffix_stops, Hs].
+Qed.
+
+Theorem format_line_comment_keeps_non_toggle alnum c c' t :
+  format_line_comment alnum c = Some c' -> parse_toggle c' = Some t -> parse_toggle c = Some t.
+Proof.
+  unfold format_line_comment. destruct (strip_prefix [47; 47] c) as [c0|] eqn:E0; [|discriminate]. apply strip_prefix_some in E0.
+  (* the "insert one space" candidate does not make a toggle *)
+  assert (H1 : forall s, flc_new1 alnum c (flc_comment c0) = Some s -> parse_toggle s = Some t -> parse_toggle c = Some t).
+  { intros s Hs Ht. unfold flc_new1 in Hs. destruct (flc_comment c0) as [|b r] eqn:Ef; [discriminate|].
+    destruct (negb (is_ascii_ws b) && negb (comment_is_separator alnum (b :: r))); [|discriminate]. injection Hs as <-.
+    unfold flc_comment in Ef. destruct c0 as [|x c0']; [discriminate|]. destruct (x =? 47) eqn:Ex.
+    - exfalso. apply N.eqb_eq in Ex. subst x c. cbn [length app] in Ht.
+      replace (S (S (S (length c0'))) - S (length r))%nat with 3%nat in Ht by (rewrite Ef; cbn [length]; lia). cbn [firstn app] in Ht.
+      change (parse_toggle ([47; 47] ++ 47 :: [32] ++ b :: r) = Some t) in Ht. rewrite (parse_toggle_opener [47; 47] _ (or_introl eq_refl)), contents_slash in Ht. discriminate.
+    - injection Ef as <- <-. subst c. cbn [length app] in Ht.
+      replace (S (S (S (length c0'))) - S (length c0'))%nat with 2%nat in Ht by lia. cbn [firstn app] in Ht.
+      change (parse_toggle ([47; 47] ++ 32 :: x :: c0') = Some t) in Ht. rewrite (parse_toggle_opener [47; 47] _ (or_introl eq_refl)), contents_ws_cons in Ht by reflexivity.
+      rewrite (parse_toggle_opener [47; 47] _ (or_introl eq_refl)). exact Ht. }
+  destruct (Nat.eqb (length (trim_blank_end c)) (length c)).
+  - intros Hs. exact (H1 c' Hs).
+  - intros Hs Ht. injection Hs as <-. apply parse_toggle_trim in Ht.
+    destruct (flc_new1 alnum c (flc_comment c0)) as [s|] eqn:En; [exact (H1 s eq_refl Ht)|exact Ht].
+Qed.
+
+(* the token-level statement used below *)
+Lemma norm_tok_keeps_non_toggle alnum tok f :
+  f_ignored f = false -> is_comment (t_ty tok) = true -> parse_toggle (t_content tok) = None ->
+  parse_toggle (t_content (fst (norm_tok alnum (tok, f)))) = None.
+Proof.
+  intros Hf Hc Hn. unfold norm_tok, lowercase_tok. rewrite Hf.
+  assert (Hk : is_keyword (t_ty tok) = false) by (destruct (t_ty tok); try discriminate Hc; reflexivity).
+  rewrite Hk. cbn [andb]. rewrite comment_tok_unfold, Hf.
+  destruct (comment_rewrite alnum (t_ty tok) (t_content tok)) as [c'|] eqn:R; cbn [fst]; [|exact Hn]. cbn [set_content t_content].
+  destruct (t_ty tok) as [| | | | |k| |k| |]; try discriminate Hc. cbn [comment_rewrite] in R.
+  destruct (parse_toggle c') as [t|] eqn:Et; [|reflexivity].
+  destruct k; try discriminate R; rewrite (format_line_comment_keeps_non_toggle alnum _ _ t R Et) in Hn; discriminate Hn.
+Qed.
+
+(* ------------------------------------------------------------------ *)
 (* 4. the hypothesis *)
 Definition rescan_ok alnum cfg (segs segs2 : list seg) : Prop :=
   map seg_ws segs2 = glue_list (cfg_rs cfg) false (fm_final alnum cfg segs)
@@ -231,7 +308,16 @@ Definition rescan_ok alnum cfg (segs segs2 : list seg) : Prop :=
 
 Definition all_false (l : list bool) : Prop := forall m, In m l -> m = false.
 
-(* hypotheses 1-7 *)
+(* hypotheses 1-4, 6, 7: what is asked of the first run (5, "the second run ignores nothing", follows: second_run_ignores_nothing) *)
+Definition idem_hyp6 alnum cfg (segs segs2 : list seg) : Prop :=
+  rescan_ok alnum cfg segs segs2
+  /\ no_asm (map seg_ty segs)
+  /\ all_false (fm_marks segs)
+  /\ no_ml_rewrite cfg segs
+  /\ (forall i p, nth_error (fm_l4 alnum segs) i = Some p ->
+        decs_for i (fm_plan1 alnum cfg segs) <> [] \/ eof_set (fm_lines segs) (length segs) i (t_ty (fst p)) = true).
+
+(* hypotheses 1-7 (the form of the first version of the theorem; 5 is redundant) *)
 Definition idem_hyp7 alnum cfg (segs segs2 : list seg) : Prop :=
   rescan_ok alnum cfg segs segs2
   /\ no_asm (map seg_ty segs)
@@ -250,6 +336,18 @@ Definition idem_hyp_starts alnum cfg (segs segs2 : list seg) : Prop :=
   /\ (forall i p p' q, nth_error (fm_l4 alnum segs) i = Some p -> nth_error (fm_l4 alnum segs2) i = Some p' ->
         nth_error (fm_final alnum cfg segs) i = Some q -> (0 <? f_nl (snd q)) = true ->
         f_sp (snd p') = f_sp (snd p)).
+
+(* the two forms without hypothesis 5 *)
+Definition idem_hyp_min alnum cfg (segs segs2 : list seg) : Prop :=
+  idem_hyp6 alnum cfg segs segs2 /\ sp_list (fm_l4 alnum segs2) = sp_list (fm_l4 alnum segs).
+Definition idem_hyp_min_starts alnum cfg (segs segs2 : list seg) : Prop :=
+  idem_hyp6 alnum cfg segs segs2
+  /\ (forall i p p' q, nth_error (fm_l4 alnum segs) i = Some p -> nth_error (fm_l4 alnum segs2) i = Some p' ->
+        nth_error (fm_final alnum cfg segs) i = Some q -> (0 <? f_nl (snd q)) = true ->
+        f_sp (snd p') = f_sp (snd p)).
+
+Lemma idem_hyp6_of_7 alnum cfg segs segs2 : idem_hyp7 alnum cfg segs segs2 -> idem_hyp6 alnum cfg segs segs2.
+Proof. intros (A & B & C & _ & D & E). split; [exact A|]. split; [exact B|]. split; [exact C|]. split; [exact D|exact E]. Qed.
 
 (* general facts used below *)
 Lemma tokens_of_tys_gen : forall (a b : list seg) tys, length a = length b -> map t_ty (tokens_of a tys) = map t_ty (tokens_of b tys).
@@ -362,16 +460,15 @@ Section Idem.
 Variable alnum : bytes -> bool.
 Variable cfg : fconfig.
 Variables segs segs2 : list seg.
-Hypothesis Hyp : idem_hyp7 alnum cfg segs segs2.
+Hypothesis Hyp : idem_hyp6 alnum cfg segs segs2.
 
 Let Hws : map seg_ws segs2 = glue_list (cfg_rs cfg) false (fm_final alnum cfg segs) := proj1 (proj1 Hyp).
 Let Hcs : map seg_content segs2 = map (fun p : ftoken => t_content (fst p)) (fm_final alnum cfg segs) := proj1 (proj2 (proj1 Hyp)).
 Let Hty : map seg_ty segs2 = map seg_ty segs := proj2 (proj2 (proj1 Hyp)).
 Let Hnoasm : no_asm (map seg_ty segs) := proj1 (proj2 Hyp).
 Let Hm1 : all_false (fm_marks segs) := proj1 (proj2 (proj2 Hyp)).
-Let Hm2 : all_false (fm_marks segs2) := proj1 (proj2 (proj2 (proj2 Hyp))).
-Let Hml : no_ml_rewrite cfg segs := proj1 (proj2 (proj2 (proj2 (proj2 Hyp)))).
-Let Hdec := proj2 (proj2 (proj2 (proj2 (proj2 Hyp)))).
+Let Hml : no_ml_rewrite cfg segs := proj1 (proj2 (proj2 (proj2 Hyp))).
+Let Hdec := proj2 (proj2 (proj2 (proj2 Hyp))).
 
 Lemma i_len : length segs2 = length segs.
 Proof. rewrite <- (map_length seg_ty segs2), Hty. apply map_length. Qed.
@@ -388,6 +485,81 @@ Proof. unfold fm_tys, fm_toks. rewrite i_tys0. apply retype_tys_gen. rewrite !fm
 Lemma i_lines0 : fm_lines0 segs2 = fm_lines0 segs.
 Proof. unfold fm_lines0, fm_lines_cd. rewrite i_tys, i_parse. reflexivity. Qed.
 
+Lemma mark_false (sg : list seg) i : all_false (fm_marks sg) -> (i < length sg)%nat -> nth_error (fm_marks sg) i = Some false.
+Proof.
+  intros Ha Hi. destruct (nth_error (fm_marks sg) i) as [m|] eqn:E; [|apply nth_error_None in E; rewrite fm_marks_length in E; lia].
+  rewrite (Ha m (nth_error_In _ _ E)). reflexivity.
+Qed.
+
+(* token i of the second run: the type of token i of the first run, and its text after the two rewriters *)
+Lemma i_toks2 i tok : nth_error (fm_toks segs) i = Some tok ->
+  exists tok2 f, nth_error (fm_toks segs2) i = Some tok2 /\ f_ignored f = false /\ t_ty tok2 = t_ty tok
+                 /\ t_content tok2 = t_content (fst (norm_tok alnum (tok, f))).
+Proof.
+  intros Ht. assert (Hi : (i < length segs)%nat) by (rewrite <- (fm_toks_length segs); apply nth_error_Some; congruence).
+  destruct (nth_error segs i) as [sg|] eqn:Es; [|apply nth_error_None in Es; lia].
+  destruct (nth_error segs2 i) as [sg2|] eqn:Es2; [|apply nth_error_None in Es2; rewrite i_len in Es2; lia].
+  destruct (nth_error (fm_final alnum cfg segs) i) as [q|] eqn:Eq; [|apply nth_error_None in Eq; rewrite fm_final_length in Eq; lia].
+  destruct (fm_l0_nth segs i sg false Es (mark_false segs i Hm1 Hi)) as (tok0 & H0 & _ & _).
+  assert (tok0 = tok) by (destruct (fm_l0_nth_inv segs i _ _ H0) as (T & _); congruence). subst tok0.
+  destruct (fm_l3_nth alnum segs i tok _ H0) as (n & H3). fold (norm_tok alnum (tok, set_sp (fmt_of_ws (seg_ws sg) false) n)) in H3.
+  pose proof (fm_l4_nth alnum segs i _ H3) as H4.
+  set (f := set_sp (fmt_of_ws (seg_ws sg) false) n) in *.
+  match type of H4 with nth_error _ _ = Some ?p => set (p4 := p) in * end.
+  assert (E4 : fst p4 = fst (norm_tok alnum (tok, f))) by (subst p4; destruct (eof_set _ _ _ _); reflexivity).
+  destruct (proj2 (wrap_same_tok alnum cfg segs Hml) i p4 H4) as (q' & Hq' & Sq & _). assert (q' = q) by congruence. subst q'.
+  destruct (fm_toks_nth segs2 i sg2 Es2) as (tok2 & Ht2 & _ & Hc2).
+  exists tok2, f. split; [exact Ht2|]. split; [reflexivity|]. split.
+  - pose proof (map_nth_error t_ty i _ Ht) as M. pose proof (map_nth_error t_ty i _ Ht2) as M'.
+    fold (fm_tys segs) in M. fold (fm_tys segs2) in M'. rewrite i_tys, M in M'. congruence.
+  - rewrite Hc2. pose proof (map_nth_error seg_content i segs2 Es2) as M. rewrite Hcs, (map_nth_error _ i _ Eq) in M.
+    rewrite <- E4, <- Sq. congruence.
+Qed.
+
+Lemma toggle_marks_false_no_toggle : forall l, all_false (toggle_marks false l) -> Forall (fun t => tok_toggle t = None) l.
+Proof.
+  induction l as [|tok r IH]; intros H; [constructor|]. rewrite toggle_marks_cons in H.
+  pose proof (H _ (or_introl eq_refl)) as H0. apply orb_false_iff in H0. destruct H0 as [Hn Hi].
+  assert (Ht : tok_toggle tok = None).
+  { unfold is_toggle_tok in Hi. destruct (tok_toggle tok); [discriminate Hi|reflexivity]. }
+  constructor; [exact Ht|]. apply IH. intros m Hm. apply H. right. rewrite Hn. exact Hm.
+Qed.
+
+(* hypothesis 5 of the first version: the second run ignores nothing *)
+Lemma i_marks2 : all_false (fm_marks segs2).
+Proof.
+  assert (Hl0 : length (fm_toks0 segs2) = length (fm_toks0 segs)) by (rewrite !fm_toks0_length; apply i_len).
+  assert (Hl : length (fm_toks segs2) = length (fm_toks segs)) by (rewrite !fm_toks_length; apply i_len).
+  (* the first run: no toggle comment, no asm mark *)
+  pose proof Hm1 as Hm. unfold fm_marks in Hm.
+  set (z := map (fun _ : token => false) (fm_toks0 segs)) in *.
+  set (tg := or_marks z (toggle_marks false (fm_toks segs))) in *.
+  assert (Hlen : length tg = length (asm_marks (fm_toks segs) (map line_view (fm_lines0 segs)))).
+  { subst tg z. rewrite or_marks_length; rewrite ?map_length, ?toggle_marks_length, ?asm_marks_length, ?fm_toks0_length, ?fm_toks_length; reflexivity. }
+  destruct (or_marks_all_false _ _ Hlen Hm) as [Htg Hasm].
+  assert (Hlz : length z = length (toggle_marks false (fm_toks segs))) by (subst z; rewrite map_length, toggle_marks_length, fm_toks0_length, fm_toks_length; reflexivity).
+  destruct (or_marks_all_false _ _ Hlz Htg) as [_ Htog].
+  pose proof (toggle_marks_false_no_toggle _ Htog) as Hnt.
+  (* the second run *)
+  assert (Hnt2 : Forall (fun t => tok_toggle t = None) (fm_toks segs2)).
+  { apply Forall_forall. intros tok2 Hin. apply In_nth_error in Hin. destruct Hin as (i & Hi2).
+    assert (Hi : (i < length (fm_toks segs))%nat) by (rewrite <- Hl; apply nth_error_Some; congruence).
+    destruct (nth_error (fm_toks segs) i) as [tok|] eqn:Et; [|apply nth_error_None in Et; lia].
+    destruct (i_toks2 i tok Et) as (tok2' & f & Ht2 & Hf & Hty2 & Hc2). assert (tok2' = tok2) by congruence. subst tok2'.
+    pose proof (proj1 (Forall_forall _ _) Hnt tok (nth_error_In _ _ Et)) as Hn. unfold tok_toggle in *. rewrite Hty2.
+    destruct (is_comment (t_ty tok)) eqn:Ec; [|reflexivity]. rewrite Hc2. exact (norm_tok_keeps_non_toggle alnum tok f Hf Ec Hn). }
+  pose proof (asm_base_le _ _ Hasm) as Hbase.
+  assert (Hbase' : forall m, In m (asm_base (fm_toks segs2) (map line_view (fm_lines0 segs))) -> m = false) by (unfold asm_base in *; rewrite Hl; exact Hbase).
+  pose proof (asm_marks_none _ _ Hbase') as Hasm'.
+  unfold fm_marks. rewrite i_lines0. intros m Hin. unfold or_marks in Hin. apply in_map_iff in Hin. destruct Hin as ([x y] & <- & Hxy). cbn [fst snd].
+  pose proof (in_combine_l _ _ _ _ Hxy) as Hx. pose proof (in_combine_r _ _ _ _ Hxy) as Hy. rewrite (Hasm' y Hy), orb_false_r.
+  apply in_map_iff in Hx. destruct Hx as ([a b] & <- & Hab). cbn [fst snd].
+  pose proof (in_combine_l _ _ _ _ Hab) as Ha0. pose proof (in_combine_r _ _ _ _ Hab) as Hb.
+  rewrite (proj1 (toggle_marks_no_toggle false _ Hnt2)) in Hb. apply repeat_spec in Hb. subst b. rewrite orb_false_r.
+  apply in_map_iff in Ha0. destruct Ha0 as (t & <- & _). reflexivity.
+Qed.
+Let Hm2 : all_false (fm_marks segs2) := i_marks2.
+
 Lemma i_marks : fm_marks segs2 = fm_marks segs.
 Proof. apply all_false_eq; [rewrite !fm_marks_length; apply i_len|exact Hm2|exact Hm1]. Qed.
 
@@ -401,11 +573,6 @@ Proof.
   unfold fm_tys in Hin2. apply in_map_iff in Hin2. destruct Hin2 as (tok0 & E & H0). rewrite <- E. apply Hn, H0.
 Qed.
 
-Lemma mark_false (sg : list seg) i : all_false (fm_marks sg) -> (i < length sg)%nat -> nth_error (fm_marks sg) i = Some false.
-Proof.
-  intros Ha Hi. destruct (nth_error (fm_marks sg) i) as [m|] eqn:E; [|apply nth_error_None in E; rewrite fm_marks_length in E; lia].
-  rewrite (Ha m (nth_error_In _ _ E)). reflexivity.
-Qed.
 
 (* the two token vectors in front of TokenSpacing *)
 Lemma i_l0 i : (i < length segs)%nat ->
@@ -597,11 +764,18 @@ Proof.
 Qed.
 End Idem.
 
+(* hypothesis 5 of the first version is a consequence of the others *)
+Theorem second_run_ignores_nothing alnum cfg segs segs2 : idem_hyp6 alnum cfg segs segs2 -> all_false (fm_marks segs2).
+Proof. exact (i_marks2 alnum cfg segs segs2). Qed.
+
+Lemma idem_hyp7_of_6 alnum cfg segs segs2 : idem_hyp6 alnum cfg segs segs2 -> idem_hyp7 alnum cfg segs segs2.
+Proof. intros H. pose proof (second_run_ignores_nothing _ _ _ _ H) as H5. destruct H as (A & B & C & D & E). split; [exact A|]. split; [exact B|]. split; [exact C|]. split; [exact H5|]. split; [exact D|exact E]. Qed.
+
 (* C03, end to end *)
-Theorem format_idempotent alnum cfg s out :
+Theorem format_idempotent_min alnum cfg s out :
   format_model alnum cfg s = inl out ->
   (forall segs, lex_segments s = Some segs ->
-     exists segs2, lex_segments (fm_out alnum cfg segs) = Some segs2 /\ idem_hyp alnum cfg segs segs2) ->
+     exists segs2, lex_segments (fm_out alnum cfg segs) = Some segs2 /\ idem_hyp_min alnum cfg segs segs2) ->
   format_model alnum cfg out = inl out.
 Proof.
   intros H Hh. apply format_model_spec in H. destruct H as (segs & Hl & Hp & Hc & Hw & ->).
@@ -613,8 +787,32 @@ Proof.
 Qed.
 
 (* the same with hypothesis 8 asked of the tokens that start a line in the output only *)
+Lemma idem_hyp_min_of_starts alnum cfg segs segs2 : idem_hyp_min_starts alnum cfg segs segs2 -> idem_hyp_min alnum cfg segs segs2.
+Proof. intros [H6 Hst]. split; [exact H6|]. exact (i_sp_from_starts alnum cfg segs segs2 H6 Hst). Qed.
+
+Theorem format_idempotent_min_starts alnum cfg s out :
+  format_model alnum cfg s = inl out ->
+  (forall segs, lex_segments s = Some segs ->
+     exists segs2, lex_segments (fm_out alnum cfg segs) = Some segs2 /\ idem_hyp_min_starts alnum cfg segs segs2) ->
+  format_model alnum cfg out = inl out.
+Proof.
+  intros H Hh. apply (format_idempotent_min alnum cfg s out H). intros segs Hl. destruct (Hh segs Hl) as (segs2 & Hl2 & Hs).
+  exists segs2. split; [exact Hl2|apply idem_hyp_min_of_starts, Hs].
+Qed.
+
+(* the first version (with the redundant hypothesis 5), kept under its name *)
+Theorem format_idempotent alnum cfg s out :
+  format_model alnum cfg s = inl out ->
+  (forall segs, lex_segments s = Some segs ->
+     exists segs2, lex_segments (fm_out alnum cfg segs) = Some segs2 /\ idem_hyp alnum cfg segs segs2) ->
+  format_model alnum cfg out = inl out.
+Proof.
+  intros H Hh. apply (format_idempotent_min alnum cfg s out H). intros segs Hl. destruct (Hh segs Hl) as (segs2 & Hl2 & H7 & Hsp).
+  exists segs2. split; [exact Hl2|]. split; [apply idem_hyp6_of_7, H7|exact Hsp].
+Qed.
+
 Lemma idem_hyp_of_starts alnum cfg segs segs2 : idem_hyp_starts alnum cfg segs segs2 -> idem_hyp alnum cfg segs segs2.
-Proof. intros [H7 Hst]. split; [exact H7|]. exact (i_sp_from_starts alnum cfg segs segs2 H7 Hst). Qed.
+Proof. intros [H7 Hst]. split; [exact H7|]. exact (i_sp_from_starts alnum cfg segs segs2 (idem_hyp6_of_7 _ _ _ _ H7) Hst). Qed.
 
 Theorem format_idempotent_starts alnum cfg s out :
   format_model alnum cfg s = inl out ->
@@ -702,6 +900,40 @@ Proof.
   rewrite nth_error_map in E. destruct (nth_error segs i); discriminate E.
 Qed.
 
+Theorem idem_hypb_min_ok alnum cfg segs : idem_hypb_min alnum cfg segs = true ->
+  exists segs2, lex_segments (fm_out alnum cfg segs) = Some segs2 /\ idem_hyp_min alnum cfg segs segs2.
+Proof.
+  unfold idem_hypb_min, idem_hyp_checks_min. cbv zeta. change (reconstruct (cfg_rs cfg) (fm_final alnum cfg segs)) with (fm_out alnum cfg segs).
+  destruct (lex_segments (fm_out alnum cfg segs)) as [segs2|]; [|discriminate].
+  cbn [forallb]. intros H. exists segs2. split; [reflexivity|].
+  apply andb_true_iff in H. destruct H as [_ H]. apply andb_true_iff in H. destruct H as [H1 H]. apply andb_true_iff in H1. destruct H1 as [H1 H1'].
+  apply andb_true_iff in H. destruct H as [H2 H]. apply andb_true_iff in H. destruct H as [H3 H]. apply andb_true_iff in H. destruct H as [H4 H].
+  apply andb_true_iff in H. destruct H as [H6 H]. apply andb_true_iff in H. destruct H as [H7 H].
+  apply andb_true_iff in H. destruct H as [H8 _].
+  assert (Hb : forall x y, bytes_eqb x y = true -> x = y) by (intros x y E; apply bytes_eqb_eq, E).
+  split; [|apply (list_eqb_eq N.eqb); [intros x y E; apply N.eqb_eq, E|exact H8]].
+  split; [split; [exact (list_eqb_eq _ Hb _ _ H1)|split; [exact (list_eqb_eq _ Hb _ _ H1')|]]|].
+  { apply (list_eqb_eq RawTokenType_eqb); [intros x y E; apply RawTokenType_eqb_eq, E|exact H2]. }
+  split; [apply not_asmb_ok, H3|]. split; [apply forallb_negb_all_false, H4|].
+  split.
+  { apply orb_true_iff in H6. destruct H6 as [H6|H6]; [left; destruct (c_fms cfg); [discriminate|reflexivity]|right].
+    intros tok Hin. rewrite forallb_forall in H6. specialize (H6 tok Hin). apply negb_true_iff in H6. exact H6. }
+  intros i p Hp. assert (Hi : (i < length segs)%nat) by (rewrite <- (fm_l4_length alnum segs); apply nth_error_Some; congruence).
+  assert (Hml : length (decided_marks alnum cfg segs) = length segs) by (unfold decided_marks; rewrite marks_fold_length, map_length; reflexivity).
+  destruct (nth_error (decided_marks alnum cfg segs) i) as [b|] eqn:Eb; [|apply nth_error_None in Eb; lia].
+  pose proof (combine_nth_error _ _ i _ _ (combine_nth_error _ _ i _ _ (seq_nth_error (length segs) 0 i Hi) Eb) Hp) as Hc.
+  rewrite forallb_forall in H7. specialize (H7 _ (nth_error_In _ _ Hc)). cbn [fst snd] in H7. cbn [plus] in H7.
+  apply orb_true_iff in H7. destruct H7 as [H7|H7]; [|right; exact H7]. subst b.
+  unfold decided_marks in Eb. destruct (marks_fold_spec _ _ _ Eb) as [E|E]; [|left; exact E].
+  rewrite nth_error_map in E. destruct (nth_error segs i); discriminate E.
+Qed.
+
+Corollary format_idempotent_min_checked alnum cfg s out :
+  format_model alnum cfg s = inl out ->
+  (forall segs, lex_segments s = Some segs -> idem_hypb_min alnum cfg segs = true) ->
+  format_model alnum cfg out = inl out.
+Proof. intros H Hb. apply (format_idempotent_min alnum cfg s out H). intros segs E. apply idem_hypb_min_ok, Hb, E. Qed.
+
 Corollary format_idempotent_checked alnum cfg s out :
   format_model alnum cfg s = inl out ->
   (forall segs, lex_segments s = Some segs -> idem_hypb alnum cfg segs = true) ->
@@ -729,6 +961,10 @@ Proof.
 Qed.
 
 Print Assumptions format_idempotent.
+Print Assumptions format_idempotent_min.
+Print Assumptions format_idempotent_min_checked.
+Print Assumptions second_run_ignores_nothing.
+Print Assumptions format_line_comment_keeps_non_toggle.
 Print Assumptions format_idempotent_starts.
 Print Assumptions idem_hypb_ok.
 Print Assumptions format_idempotent_checked.
